@@ -834,3 +834,205 @@ func c17SetMaxPaths(c *core.Ctx, f *flow.Func, cons string) {
 		sprintf("%d exits: all forward the parameter to SetMaxCount (or skip only against a cached limit that is kept in sync)", len(res.Exits)),
 		why, witness(bad)...)
 }
+
+// c17RestartDecision: a change of MaxConnections alone never takes the restart path. reload applies a
+// new cap to the live listener (R-C17-3 reload|forwards ...); a restart instead shuts the server down —
+// established keep-alive connections are dropped and the new LimitListener starts counting at zero.
+// The restart decision (the bool function over a *Spec that compares two Spec values; needRestartServer
+// today) must therefore neutralise MaxConnections on BOTH operands of its comparison: directly on the
+// copies, or inside a same-package normaliser the copies are produced by (by value or by pointer).
+// A decision that compares individual fields must not compare MaxConnections.
+func c17RestartDecision(c *core.Ctx) {
+	specT := namedType(c, c17HS, "Spec")
+	maxF := structField(c, c17HS, "Spec", "MaxConnections")
+	if specT == nil || maxF == nil {
+		return
+	}
+	cands := funcsByRole(c, c17HS, func(g *flow.Func, fd *ast.FuncDecl) bool {
+		if fd.Type.Results == nil || len(fd.Type.Results.List) != 1 || fd.Type.Params == nil {
+			return false
+		}
+		if tv, ok := g.Info.Types[fd.Type.Results.List[0].Type]; !ok || !types.Identical(tv.Type, types.Typ[types.Bool]) {
+			return false
+		}
+		hasSpec := false
+		for _, fl := range fd.Type.Params.List {
+			if tv, ok := g.Info.Types[fl.Type]; ok && types.Identical(tv.Type, types.NewPointer(specT)) {
+				hasSpec = true
+			}
+		}
+		if !hasSpec {
+			return false
+		}
+		// it decides over two specs: compares Spec values as a whole, or fields of two different specs
+		return len(c11SpecComparisons(g, fd, specT, 0)) > 0 || fd.Name.Name == "needRestartServer"
+	})
+	if len(cands) > 1 {
+		for _, g := range cands {
+			if g.Node.(*ast.FuncDecl).Name.Name == "needRestartServer" {
+				cands = []*flow.Func{g}
+			}
+		}
+	}
+	if len(cands) != 1 {
+		c.Undecide("R-C17-3", c17HS+"|restart decision ignores MaxConnections", c.Prog.Rel(specT.Obj().Pos()),
+			sprintf("expected one bool function taking a *Spec that compares two Spec values (the restart decision), found %d", len(cands)))
+		return
+	}
+	f := cands[0]
+	fd := f.Node.(*ast.FuncDecl)
+	cons := declName(f.Pkg, fd) + "|a change of MaxConnections alone never restarts"
+	c.Count("functions_analysed", 1)
+	const consequence = ": an update that changes only maxConnections takes the restart path — reload shuts the server down (established keep-alive connections are dropped) and starts a new LimitListener whose count begins at zero, instead of resizing the live listener without dropping any connection"
+
+	cmps := c11SpecComparisons(f, fd, specT, 0)
+	if len(cmps) == 0 {
+		// field-by-field decision: MaxConnections must not be among the compared fields
+		var hit ast.Node
+		inspectReach(f, 2, func(g *flow.Func, n ast.Node) bool {
+			if be, ok := n.(*ast.BinaryExpr); ok && (be.Op == token.EQL || be.Op == token.NEQ) {
+				if c17Field(g, c17StripConv(g, be.X)) == maxF || c17Field(g, c17StripConv(g, be.Y)) == maxF {
+					hit = be
+				}
+			}
+			return true
+		})
+		c.Check(hit == nil, "R-C17-3", cons, pos(c, fd.Name),
+			"the restart decision compares individual fields and MaxConnections is not among them",
+			"the restart decision compares MaxConnections of the running and the next spec"+consequence)
+		return
+	}
+	if len(cmps) != 1 {
+		c.Undecide("R-C17-3", cons, pos(c, fd.Name), sprintf("%d comparisons of Spec values in the restart decision: shape not modelled", len(cmps)))
+		return
+	}
+	cm := cmps[0]
+
+	// blanked(e): is MaxConnections set to the constant 0 on the Spec value e denotes at the comparison?
+	// (yes / no / cannot tell)
+	type tri int
+	const (
+		no tri = iota
+		yes
+		unknown
+	)
+	isZero := func(m map[*types.Var]string) bool { return m[maxF] == "0" }
+	var blanked func(g *flow.Func, gd *ast.FuncDecl, e ast.Expr, before ast.Node, depth int) (tri, string)
+	blanked = func(g *flow.Func, gd *ast.FuncDecl, e ast.Expr, before ast.Node, depth int) (tri, string) {
+		e = ast.Unparen(e)
+		if depth > 3 {
+			return unknown, "nesting too deep"
+		}
+		switch x := e.(type) {
+		case *ast.StarExpr:
+			return no, ""
+		case *ast.Ident:
+			v, ok := g.Info.Uses[x].(*types.Var)
+			if !ok || v.IsField() {
+				return unknown, "operand " + x.Name + " is not a local"
+			}
+			if _, isStruct := v.Type().Underlying().(*types.Struct); !isStruct {
+				return unknown, "operand " + x.Name + " is not a Spec value"
+			}
+			if m, _ := c11BlankedIn(g, gd.Body, v, before); isZero(m) {
+				return yes, ""
+			} else if val, touched := m[maxF]; touched {
+				if strings.HasPrefix(val, "?") {
+					return unknown, "MaxConnections of " + x.Name + " is assigned a non-constant value"
+				}
+				return no, ""
+			}
+			// not blanked here: maybe where the copy comes from
+			var srcs []ast.Expr
+			ast.Inspect(gd.Body, func(n ast.Node) bool {
+				switch st := n.(type) {
+				case *ast.AssignStmt:
+					for i, l := range st.Lhs {
+						if id, ok := l.(*ast.Ident); ok && (g.Info.Defs[id] == v || g.Info.Uses[id] == v) {
+							if len(st.Lhs) == len(st.Rhs) {
+								srcs = append(srcs, st.Rhs[i])
+							} else {
+								srcs = append(srcs, nil)
+							}
+						}
+					}
+				case *ast.ValueSpec:
+					for i, id := range st.Names {
+						if g.Info.Defs[id] == v && i < len(st.Values) {
+							srcs = append(srcs, st.Values[i])
+						}
+					}
+				}
+				return true
+			})
+			if len(srcs) == 0 {
+				return no, "" // a parameter passed by value: nothing blanked before
+			}
+			if len(srcs) != 1 || srcs[0] == nil {
+				return unknown, x.Name + " is assigned several times"
+			}
+			return blanked(g, gd, srcs[0], before, depth+1)
+		case *ast.CallExpr:
+			callee, _ := g.Callee(x).(*types.Func)
+			if callee == nil || callee.Pkg() != g.Pkg.Types {
+				return unknown, "the copy is produced by " + types.ExprString(x.Fun) + ", which cannot be followed"
+			}
+			hd := declOf(g.Pkg, callee)
+			if hd == nil {
+				return unknown, "no body for " + callee.Name()
+			}
+			h := funcOf(g.Pkg, hd)
+			// a normaliser: every return yields the same Spec-valued variable
+			var rv *types.Var
+			okRet, nRet := true, 0
+			var retID *ast.Ident
+			ast.Inspect(hd.Body, func(n ast.Node) bool {
+				if _, isLit := n.(*ast.FuncLit); isLit {
+					return false
+				}
+				if r, ok := n.(*ast.ReturnStmt); ok {
+					nRet++
+					if len(r.Results) != 1 {
+						okRet = false
+						return true
+					}
+					id, ok := ast.Unparen(r.Results[0]).(*ast.Ident)
+					if !ok {
+						okRet = false
+						return true
+					}
+					v, _ := h.Info.Uses[id].(*types.Var)
+					if v == nil || (rv != nil && v != rv) {
+						okRet = false
+					}
+					rv, retID = v, id
+				}
+				return true
+			})
+			if !okRet || nRet == 0 || rv == nil {
+				return unknown, "the helper " + callee.Name() + " does not simply return one (blanked) Spec variable"
+			}
+			return blanked(h, hd, retID, nil, depth+1)
+		}
+		return unknown, "operand " + types.ExprString(e) + " has a shape that cannot be followed"
+	}
+	ta, wa := blanked(f, fd, cm.a, cm.at, 0)
+	tb, wb := blanked(f, fd, cm.b, cm.at, 0)
+	switch {
+	case ta == no || tb == no:
+		side := types.ExprString(cm.a)
+		if ta != no {
+			side = types.ExprString(cm.b)
+		}
+		both := ""
+		if ta == no && tb == no {
+			both = " (on neither operand)"
+		}
+		c.Violate("R-C17-3", cons, pos(c, cm.at),
+			"Spec.MaxConnections is not set to 0 on the operand "+side+both+" before the two specs are compared, so the copies differ whenever maxConnections differs"+consequence)
+	case ta == unknown || tb == unknown:
+		c.Undecide("R-C17-3", cons, pos(c, cm.at), "cannot tell whether MaxConnections is neutralised: "+wa+" "+wb)
+	default:
+		c.Discharge("R-C17-3", cons, pos(c, cm.at), "Spec.MaxConnections is set to 0 on both operands of the restart comparison")
+	}
+}
